@@ -95,7 +95,9 @@ func listItems(prop, tier string) []Item {
 func seqJobList(prop, tier string) []*SeqJob {
 	switch prop {
 	case "C01":
-		return append(c01SeqJobs(tier), metricsPerScopeSweep("C01", "size-sweep-counters-and-histograms-per-scope", tier, map[string]bool{"counter": true, "histogram": true}), bothReportersJob("C01", tier), c01PanicJob(tier))
+		return append(c01SeqJobs(tier), metricsPerScopeSweep("C01", "size-sweep-counters-and-histograms-per-scope", tier, map[string]bool{"counter": true, "histogram": true}), bothReportersJob("C01", tier), c01PanicJob(tier),
+			// (cycles of close / drop / re-obtain are part of C01's quantifier: the counters of the C07 cycle jobs add up here too)
+			borrow("C01", c07TaggedRootJob(tier)), borrow("C01", scopesPerRegistrySweep(tier)))
 	case "C07":
 		return []*SeqJob{c07SeqJob(tier), scopesPerRegistrySweep(tier), bothReportersJob("C07", tier), c07TaggedRootJob(tier)}
 	case "C08":
@@ -134,7 +136,8 @@ func seqJobList(prop, tier string) []*SeqJob {
 	case "C15":
 		return c15Jobs(tier)
 	case "C12":
-		return c12Jobs(tier)
+		// (the many-tag-sets job of C13 measures every datagram against the limit: it runs here as well)
+		return append(c12Jobs(tier), borrow("C12", c13ManyTagSetsJob(tier)))
 	case "C13":
 		return c13Jobs(tier)
 	case "C14":
